@@ -1,4 +1,5 @@
 import Invoke.Model.Config
+import Invoke.Model.ConfigCache
 import Driver.Util
 /-! Line-protocol driver for the `Config` model (C06, C11, C19).
 
@@ -179,6 +180,75 @@ def runHistory (ops : List String) : String :=
       go objs' frozen' rest (line :: acc)
   "|".intercalate (go [] [] ops [])
 
-def step (line : String) : String := runHistory (line.splitOn ";")
+/-! ### cached model (`Model/ConfigCache.lean`): histories with held proxy handles; lines start with `C ` -/
+
+open Inv.Cache in
+def showViewC (s : CState) : String := showVal (.dict s.view)
+
+open Inv.Cache in
+/-- (objects, handles (id, object, handle)) -> op words -> (objects', handles', result) -/
+def runOpC (objs : List CState) (hs : List (Nat × Nat × Handle)) (i : Nat) (ws : List String) :
+    List CState × List (Nat × Nat × Handle) × String :=
+  let cur : CState := objs.getD i {}
+  let fin (r : Except CErr CState) : List CState × List (Nat × Nat × Handle) × String :=
+    match r with
+    | .ok s' => (objs.set i s', hs, "-")
+    | .error e => (objs, hs, showErr e)
+  let finOut (r : Except CErr (CState × Out)) : List CState × List (Nat × Nat × Handle) × String :=
+    match r with
+    | .ok (s', o) => (objs.set i s', hs, showOut o)
+    | .error e => (objs, hs, showErr e)
+  match ws with
+  | ["NEW", d, o] =>
+    (match CState.new { defaults := pd d, overrides := pd o } with
+     | .ok s => (objs ++ [s], hs, "-")
+     | .error e => (objs ++ [{}], hs, showErr e))
+  | ["LOAD", sl, d] =>
+    (match slotOf sl with
+     | some x => fin (loadC cur x (pd d))
+     | none => (objs, hs, "bad-slot"))
+  | ["LOADU", sl, d] =>
+    (match slotOf sl with
+     | some x => (objs.set i (loadUnmergedC cur x (pd d)), hs, "-")
+     | none => (objs, hs, "bad-slot"))
+  | ["MERGE"] => fin (rebuild cur)
+  | ["ENV", e] => fin (shellEnvC cur (parseEnv e))
+  | ["CLONE", into] =>
+    (match cloneC cur (match pdOpt into with | some d => d | none => []) with
+     | .ok s => (objs ++ [s], hs, "-")
+     | .error e => (objs, hs, showErr e))
+  | ["HOLD", h, p] =>
+    (match hold cur (pathOf p) with
+     | .ok hd => (objs, (h.toNat?.getD 0, i, hd) :: hs.filter (fun x => x.1 != h.toNat?.getD 0),
+                  s!"N{(Inv.Heap.cellAt cur.heap hd.addr).length}")
+     | .error e => (objs, hs.filter (fun x => x.1 != h.toNat?.getD 0), showErr e))
+  | "HOP" :: h :: rest =>
+    (match hs.find? (fun x => x.1 == h.toNat?.getD 0) with
+     | none => (objs, hs, "E:key")
+     | some (_, _, hd) =>
+       match parseOp rest with
+       | none => (objs, hs, "bad-op")
+       | some (_, op) => finOut (applyHandle cur hd op))
+  | _ =>
+    match parseOp ws with
+    | none => (objs, hs, "bad-op")
+    | some (path, op) => finOut (applyRoot cur path op)
+
+def runHistoryC (ops : List String) : String :=
+  let rec go (objs : List Inv.Cache.CState) (hs : List (Nat × Nat × Inv.Cache.Handle)) (ops : List String)
+      (acc : List String) : List String :=
+    match ops with
+    | [] => acc.reverse
+    | o :: rest =>
+      let (idx, body) := match o.splitOn ":" with
+        | i :: r => (i.toNat?.getD 0, ":".intercalate r)
+        | [] => (0, "")
+      let (objs', hs', res) := runOpC objs hs idx (body.splitOn " ")
+      let line := "#".intercalate (res :: objs'.map showViewC)
+      go objs' hs' rest (line :: acc)
+  "|".intercalate (go [] [] ops [])
+
+def step (line : String) : String :=
+  if line.startsWith "C " then runHistoryC ((line.drop 2).toString.splitOn ";") else runHistory (line.splitOn ";")
 
 def main : IO Unit := mainLoop step
